@@ -40,7 +40,7 @@ func (r *rng) bytes(n int) []byte {
 	}
 	return b
 }
-func (r *rng) pick(xs ...int) int { return xs[r.intn(len(xs))] }
+func (r *rng) pick(xs ...int) int        { return xs[r.intn(len(xs))] }
 func (r *rng) pickS(xs ...string) string { return xs[r.intn(len(xs))] }
 
 func hashStr(s string) uint64 {
@@ -94,6 +94,8 @@ type recorder struct {
 	w  *bufio.Writer
 	f  *os.File
 	n  int
+
+	null bool
 }
 
 func newRecorder(path string) *recorder {
@@ -104,7 +106,13 @@ func newRecorder(path string) *recorder {
 	return &recorder{w: bufio.NewWriterSize(f, 1<<20), f: f}
 }
 
+// newNullRecorder discards events (used for dry runs)
+func newNullRecorder() *recorder { return &recorder{null: true} }
+
 func (r *recorder) ev(m M) {
+	if r.null {
+		return
+	}
 	b, err := json.Marshal(m)
 	if err != nil {
 		fatal("marshal event: %v", err)
